@@ -157,6 +157,19 @@ func (vfs *MemFS) searchNode(path string, slMode slMode) (
 			}
 
 			if pi.ReplacePart(c.link) {
+				// the target is absolute : the walk starts again from the root of the volume the target names.
+				if pi.VolumeNameLen() > 0 {
+					nd, ok := vfs.volumes[pi.VolumeName()]
+					if !ok {
+						child = nil
+						err = vfs.err.NoSuchDir
+
+						return
+					}
+
+					volNode = nd
+				}
+
 				parent = volNode
 			}
 		}
